@@ -347,7 +347,11 @@ func (b *zvqServeWait) RequestStream(codes []byte, dl string, r *mrand.Rand) (pa
 		sc.c.Close()
 	}
 	b.mu.Lock()
-	b.classes[fmt.Sprintf("%s/%d-frames", cls, len(codes))]++
+	if len(codes) > 4 {
+		b.classes[cls+"/5-to-256-frames"]++
+	} else {
+		b.classes[fmt.Sprintf("%s/%d-frames", cls, len(codes))]++
+	}
 	b.mu.Unlock()
 	return atomic.LoadInt32(&sc.pan) == 1, err
 }
